@@ -428,6 +428,37 @@ def luks_verdict():
     verdict_proof('luks')
 
 
+@proof(['C01', 'C07', 'C03'], targets=[(FI, 'FileInspector.__init__'),
+                                        (FI, 'FileInspector.eat_chunk')])
+def inspectors_do_not_share_state():
+    """The verdict is a function of the bytes THIS inspector saw: feeding one
+    instance leaves every other instance of the class - created before or
+    after - in the state R_F(S', 0) of a fresh inspector (no class-level
+    containers, no caches)."""
+    M = load(FI)
+    fmt = pick('format', sorted(LAYOUT))
+    cname = LAYOUT[fmt][0]
+    S = fresh_bytes('S')
+    p = fresh_int('p', 0, len(S))
+    older = getattr(M, cname)()
+    fed = getattr(M, cname)()
+    fed.eat_chunk(S[0:p])
+    fed.finish()
+    fed.format_match
+    fed.virtual_size if (fmt != 'luks' or p >= 108) else None
+    newer = getattr(M, cname)()
+    other = fresh_bytes('another_stream')
+    for who, insp in (('older', older), ('newer', newer)):
+        check_R(fmt, insp, other, 0, fmt + '/isolated-' + who)
+        check(fmt + '/isolated/fresh-verdict',
+              insp.format_match == spec_match(fmt, other, 0)
+              and insp.complete == spec_complete(fmt, 0))
+        if fmt != 'luks':
+            check(fmt + '/isolated/fresh-size', insp.virtual_size
+                  == spec_size(fmt, other, 0, spec_match(fmt, other, 0)),
+                  'C07')
+
+
 @proof(['C03', 'C01'], targets=[(FI, 'FileInspector.complete')],
        assumes=['uses the spec verdicts that the verdict proofs tie to the '
                 'real observers'])
